@@ -50,7 +50,9 @@ def gen(rng, n, tier):
     for i in range(n):
         kind = rng.choice(kinds)
         nv = rng.randint(1, 4)
-        vs = [R.gen_var(rng, j, with_cost=0.5 if (j == 0 or kind == "asgcost") else 0.0) for j in range(nv)]
+        # neighbours carry own costs too: the helpers must count the optimised variable's cost only
+        vs = [R.gen_var(rng, j, with_cost=0.5 if (j == 0 or kind == "asgcost") else
+                        (0.4 if kind in ("findopt", "dsa", "adsa", "dsatuto") else 0.0)) for j in range(nv)]
         c = dict(kind=kind, vars=vs, mode=rng.choice(["min", "max"]), bad=rng.random() < 0.1, x=0)
         if kind == "argopt":
             r = R.gen_rel(rng, [vs[0]], arity=1)
@@ -360,9 +362,11 @@ def oracle(c, o):
         return None
     best = opt(costs)
     exp = [d for d, cst in zip(x["dom"], costs) if cst == best]
-    for v, _ in o["selected"]:
+    for v, cst in o["selected"]:
         if v not in exp:
             return "%s selected %r, best values are %r (local costs %r, mode %s)" % (k, v, exp, costs, c["mode"])
+        if cst != {"none": 1} and not R.same_num(R.tok_num(cst), best):
+            return "%s selected %r announcing cost %r, optimal local cost is %r" % (k, v, cst, best)
     if len(o["selected"]) > 1:
         return "%s selected a value twice in one step" % k
     return None
